@@ -10,7 +10,6 @@ import (
 	"time"
 
 	"github.com/fogfish/golem/pipe/v2"
-	"github.com/fogfish/golem/pure/monoid"
 )
 
 // Directed probe for C06: cancellation and closure. What was delivered before/after a
